@@ -186,11 +186,31 @@ def own_bounds(rng, pop):
     return prog, {'own-bounds-' + shape, 'own-bounds'}, []
 
 
+def padded_population(rng):
+    """group and location names that differ only by a blank at either end are
+    different groups and locations: each is bound once by `repeat group` /
+    `repeat location`, and `repeat in group "x "` visits its members only"""
+    pop = gen.random_population(rng)
+    for d in pop:
+        r = rng.random()
+        if r < 0.35:
+            d['group'] = d['group'] + rng.choice([' ', '  '])
+        elif r < 0.5:
+            d['group'] = ' ' + d['group']
+        r = rng.random()
+        if r < 0.3:
+            d['location'] = d['location'] + ' '
+        elif r < 0.4:
+            d['location'] = ' ' + d['location']
+    return pop
+
+
 def run_shard(ctx):
     n = N[ctx.tier]
     for i in range(ctx.shard, n, ctx.nshards):
         out = progcheck.one_case(
             ctx, i, PROFILE, 'c04',
+            pop_fn=padded_population if i % 10 in (2, 6) else None,
             prog_fn=crossing if i % 10 == 9 else
             own_bounds if i % 10 == 4 else None,
             made_under=gen.random_population if i % 10 == 7 else None)
